@@ -60,7 +60,13 @@ func startRaftNode(id uint64, nodeIds []uint64, storage wal.WAL, logger *log.Ent
 		Logger:          logger,
 	}
 
-	if len(nodeIds) > 0 {
+	empty, err := isEmptyStorage(storage)
+	if err != nil {
+		return nil, err
+	}
+
+	// Bootstrap only on an empty WAL; a node that already has state must restart from it
+	if len(nodeIds) > 0 && empty {
 		var peers []etcdRaft.Peer
 		for _, nodeId := range nodeIds {
 			peers = append(peers, etcdRaft.Peer{ID: nodeId})
@@ -70,6 +76,22 @@ func startRaftNode(id uint64, nodeIds []uint64, storage wal.WAL, logger *log.Ent
 		// Allow the group to join existing cluster
 		return etcdRaft.RestartNode(raftConfig), nil
 	}
+}
+
+func isEmptyStorage(storage wal.WAL) (bool, error) {
+	hardState, _, err := storage.InitialState()
+	if err != nil {
+		return false, err
+	}
+	snapshot, err := storage.Snapshot()
+	if err != nil {
+		return false, err
+	}
+	lastIndex, err := storage.LastIndex()
+	if err != nil {
+		return false, err
+	}
+	return etcdRaft.IsEmptyHardState(hardState) && etcdRaft.IsEmptySnap(snapshot) && lastIndex == 0, nil
 }
 
 func NewRaftGroup(id uuid.UUID, nodeIds []uint64, storage wal.WAL, transport *RaftTransport) (*RaftGroup, error) {
